@@ -24,8 +24,11 @@ enum Item {
 }
 
 fn lens(tier: Tier) -> Vec<usize> {
-    let _ = tier;
-    (1..=64).map(|k| 8 * k).collect()
+    if tier == Tier::Quick {
+        (1..=64).map(|k| 8 * k).collect()
+    } else {
+        (1..=128).map(|k| 8 * k).collect()
+    }
 }
 
 fn items(tier: Tier) -> Vec<Item> {
@@ -36,6 +39,10 @@ fn items(tier: Tier) -> Vec<Item> {
         }
         for w in WINDOWS {
             v.push(Item::Impulse { len: 64, f32t, window: w });
+            if tier == Tier::Thorough {
+                v.push(Item::Impulse { len: 72, f32t, window: w });
+                v.push(Item::Impulse { len: 256, f32t, window: w });
+            }
         }
         v.push(Item::Dispatch { f32t });
     }
@@ -62,12 +69,12 @@ fn fail(acc: &mut Acc, sig: &str, detail: String, point: String) {
 
 fn impulses<T: Flt>(acc: &mut Acc, tier: Tier, len: usize, window: WindowFunction, journal: Option<&JournalFile>) -> Result<(), String> {
     let q = tier == Tier::Quick;
-    let overs: Vec<usize> = if q { vec![1, 2, 3, 5, 128, 256] } else { vec![1, 2, 3, 5, 7, 128, 256, 2048] };
+    let overs: Vec<usize> = if q { vec![1, 2, 3, 5, 128, 256] } else { vec![1, 2, 3, 4, 5, 6, 7, 100, 128, 160, 256, 2048] };
     let starts: Vec<usize> = if q { vec![0, 1, 8] } else { (0..=8).collect() };
     let misaligns: Vec<usize> = if q { vec![0, 1, 3, 7] } else { (0..8).collect() };
-    let f_cutoff = 0.93f32;
     let eps = if T::IS_F32 { f32::EPSILON as f64 } else { f64::EPSILON };
-    for &os in &overs {
+    let cutoffs: Vec<f32> = if q { vec![0.93] } else { vec![0.93, 0.41] };
+    for (&os, &f_cutoff) in overs.iter().flat_map(|o| cutoffs.iter().map(move |c| (o, c))) {
         let scalar = ScalarInterpolator::<T>::new(len, os, f_cutoff, window);
         let sse = SseInterpolator::<T>::new(len, os, f_cutoff, window).map_err(|e| format!("SSE kernel unavailable: {}", e))?;
         let avx = AvxInterpolator::<T>::new(len, os, f_cutoff, window).map_err(|e| format!("AVX kernel unavailable: {}", e))?;
